@@ -2,6 +2,7 @@ package wh
 
 import (
 	"bytes"
+	"errors"
 	"fmt"
 
 	"verif/harness/ref"
@@ -27,10 +28,17 @@ import (
 //	    frame; with flushing disabled Write/ReadFrom send nothing and the final flush
 //	    sends one frame with everything.
 //
+// A ReadFrom whose source ends with a non-EOF error (or stalls into
+// io.ErrNoProgress) still counts: the n it returned are accepted bytes and
+// have to leave with the message.
+//
 // Open: a message whose write-type calls accepted zero bytes and sent no
 // fragment may end in one empty final frame or in nothing.
 type Checker struct {
 	Cfg Config
+	// SkipKnown makes Step return ErrKnownFinding instead of a violation for
+	// cases matching SigFlushNoopAfterReadFromError.
+	SkipKnown bool
 
 	msg      []ref.Frame // frames of the open message
 	sent     int         // payload bytes of msg
@@ -39,6 +47,8 @@ type Checker struct {
 	plain    bool        // only Write/ReadFrom/Grow (and silent FlushFragment) since the previous final flush
 	fits     bool        // every Write so far kept the total <= Size() (ReadFrom: < Size())
 	grewFull bool        // a Grow happened with buffered bytes
+	setters  int         // calls of this message that succeeded as Write / accepted WriteThrough / ReadFrom to EOF
+	rfErrs   int         // ReadFrom calls of this message whose source ended with an error / stalled
 
 	// statistics of the whole run
 	Messages     int // completed messages (final flushes that sent a frame)
@@ -52,8 +62,22 @@ type Checker struct {
 	Refused      int // write-throughs refused with ErrNotEmpty
 	GrowBuffered int // Grow calls with buffered bytes that enlarged the buffer
 	Frames       int
+	ReadFromErrs int // ReadFrom calls that ended with a source error or io.ErrNoProgress
 	LastMsg      []ref.Frame // frames of the most recently completed message
 }
+
+// SigFlushNoopAfterReadFromError is the signature of a known defect of the tree:
+// when every write-type call of a message was a ReadFrom whose source ended
+// with a non-EOF error (so nothing marked the writer dirty) and the buffer is
+// empty at the final flush because the accepted bytes already left as
+// non-final fragment(s), Flush does nothing: the message stays open and the
+// next one continues it.
+const SigFlushNoopAfterReadFromError = "C06/flush-noop-after-failed-readfrom-with-empty-buffer"
+
+// ErrKnownFinding is returned by Step for a case matching
+// SigFlushNoopAfterReadFromError when Checker.SkipKnown is set; the history
+// must not be continued.
+var ErrKnownFinding = errors.New("wh: case matches " + SigFlushNoopAfterReadFromError)
 
 // NewChecker starts with no open message.
 func NewChecker(cfg Config) *Checker {
@@ -94,7 +118,8 @@ func (c *Checker) Step(a Action, r Result) error {
 		c.sent += len(f.Payload)
 		c.Frames++
 	}
-	if r.Err != "" && !(a.Kind == KThrough && r.Err == "notempty") {
+	srcEnd := a.Kind == KReadFrom && ((a.SrcErr && r.Err == "source") || (a.Stall && r.Err == "noprogress"))
+	if r.Err != "" && !(a.Kind == KThrough && r.Err == "notempty") && !srcEnd {
 		return fmt.Errorf("%s returned error %q although the destination never fails", a.Kind, r.Err)
 	}
 	switch a.Kind {
@@ -104,6 +129,7 @@ func (c *Checker) Step(a Action, r Result) error {
 		}
 		c.acc = append(c.acc, a.Data()...)
 		c.wcalls++
+		c.setters++
 		if len(c.acc) > r.Before.Size {
 			c.fits = false
 		}
@@ -111,10 +137,21 @@ func (c *Checker) Step(a Action, r Result) error {
 			return fmt.Errorf("write sent %d frame(s) although flushing is disabled", len(frames))
 		}
 	case KReadFrom:
-		if r.N != int64(a.Len) || r.SrcLeft != 0 {
-			return fmt.Errorf("readfrom of a %d-byte source returned n=%d, nil and left %d source bytes unread", a.Len, r.N, r.SrcLeft)
+		if srcEnd {
+			// The source failed after handing out a.Len-SrcLeft bytes: all of
+			// them, and no more, are what ReadFrom may report as accepted.
+			if r.N != int64(a.Len-r.SrcLeft) {
+				return fmt.Errorf("readfrom consumed %d source bytes before the source failed (%s) but reported n=%d", a.Len-r.SrcLeft, r.Err, r.N)
+			}
+			c.rfErrs++
+			c.ReadFromErrs++
+		} else {
+			if r.N != int64(a.Len) || r.SrcLeft != 0 {
+				return fmt.Errorf("readfrom of a %d-byte source returned n=%d, nil and left %d source bytes unread", a.Len, r.N, r.SrcLeft)
+			}
+			c.setters++
 		}
-		c.acc = append(c.acc, a.Data()...)
+		c.acc = append(c.acc, a.Data()[:r.N]...)
 		c.wcalls++
 		if len(c.acc) >= r.Before.Size {
 			c.fits = false
@@ -135,6 +172,7 @@ func (c *Checker) Step(a Action, r Result) error {
 		}
 		c.acc = append(c.acc, a.Data()...)
 		c.wcalls++
+		c.setters++
 		c.plain = false
 		c.Throughs++
 	case KFragment:
@@ -184,6 +222,7 @@ func firstDiff(a, b []byte) int {
 func (c *Checker) finish(r Result) error {
 	defer func() {
 		c.msg, c.sent, c.acc, c.wcalls, c.plain, c.fits = nil, 0, nil, 0, true, true
+		c.setters, c.rfErrs = 0, 0
 	}()
 	n := len(c.msg)
 	switch {
@@ -200,6 +239,9 @@ func (c *Checker) finish(r Result) error {
 		c.OpenEmpty++
 		c.OpenNothing++
 		return nil
+	}
+	if !c.msg[n-1].H.Fin && c.SkipKnown && c.setters == 0 && c.rfErrs > 0 && r.Before.Buffered == 0 && len(r.Out) == 0 {
+		return ErrKnownFinding
 	}
 	if !c.msg[n-1].H.Fin {
 		return fmt.Errorf("final flush left the message open: last of %d frames has FIN clear (flush sent %d bytes)", n, len(r.Out))
